@@ -329,6 +329,10 @@ func plencValue(tag string) (int, error) {
 }
 
 func quote(tag string) string {
+	if bytes.IndexByte([]byte(tag), '`') >= 0 {
+		// A raw string cannot hold a backquote
+		return strconv.Quote(tag)
+	}
 	return "`" + tag + "`"
 }
 
